@@ -5,7 +5,7 @@ for p in "$@"; do
   for s in SEED SEED2; do
     src=/tmp/$prefix-$p/$s
     [ -f $src/patch.diff ] || { echo "no $src"; continue; }
-    for l in a b c d e f g h i j k; do [ -e /verif/seeded/$p-$l ] || break; done
+    for l in a b c d e f g h i j k l m n o p q r s t u v w x y z; do [ -e /verif/seeded/$p-$l ] || break; done
     cp -r $src /verif/seeded/$p-$l; echo "$src -> seeded/$p-$l"
   done
   git -C /repo worktree remove --force /tmp/$prefix-$p 2>/dev/null; rm -rf /tmp/$prefix-$p /tmp/$prefix-$p-* /tmp/${prefix,,}-${p,,}*
